@@ -1,1 +1,613 @@
+/* unit hmm - harris_michael_hash_map (C08, C09).  Declarations, contract stubs, ghost state, invariants, harnesses.
+ * All function bodies come from lowered.h (extracted from /repo on every run). */
+#include <stdint.h>
+#include <stddef.h>
+#ifndef NB
+#define NB 2          /* shape: number of buckets */
+#endif
+#ifndef L
+#define L 3           /* shape: at most L linked nodes (over all buckets) */
+#endif
+#ifndef XV_MEMO
+#define XV_MEMO 0     /* policy memoize_hash: data_t = data_with_hash (1) / data_without_hash (0) */
+#endif
+/* ---- monitors ---- */
+static void mon_cas(void* addr, uint64_t e, uint64_t d, _Bool ok, int o);
+static void mon_store(void* addr, uint64_t v, int o);
+#define XV_ON_CAS(addr, e, d, ok, order) mon_cas((void*)(addr), (uint64_t)(e), (uint64_t)(d), (ok), (order))
+#define XV_ON_STORE(addr, val, order) mon_store((void*)(addr), (uint64_t)(val), (order))
 #include "xv.h"
+int xv_threw; uint64_t xv_clock, xv_rmw_old; _Bool xv_cas_ok;
+
+/* ---- types: marked_ptr / guard_ptr / node* are words: (node index + 1) * 2 | delete mark ---- */
+#ifndef XV_WORD
+#define XV_WORD uint8_t   /* node handles are small integers; -DXV_WORD=uintptr_t in the thorough tier */
+#endif
+typedef XV_WORD mptr; typedef mptr guard_t; typedef size_t hash_t; typedef uint32_t kkey_t; typedef XV_WORD val_t;
+struct value_type { kkey_t first; val_t second; };
+struct data_t { hash_t hash; struct value_type value; };      /* data_without_hash: the hash field does not exist (kept arbitrary) */
+struct node { struct data_t data; mptr next; };
+struct find_info { mptr* prev; mptr next; guard_t cur; guard_t save; };
+struct hmm { mptr buckets[NB]; };
+struct iterator { struct hmm* map; size_t bucket; struct find_info info; };
+struct pair_ib { struct iterator first; _Bool second; };
+struct accessor { guard_t guard; };
+#define num_buckets ((size_t)NB)
+
+#define NP (L + 3)
+#define IX (L)          /* a node that is marked and already unlinked (iterator's cur left behind by another handle) */
+#define IY (L + 1)      /* a second marked + unlinked node (iterator's save) */
+#define IN (L + 2)      /* the slot operator new returns */
+struct hmm M; struct node pool[NP];
+unsigned g_retired[NP]; _Bool g_alloc, g_freed, g_published; unsigned g_alloc_count, g_factory_calls;
+#define W(i) ((((mptr)(i)) + 1) << 1)
+#define MP_get(x) ((mptr)(x) & ~(mptr)1)
+#define MP_mark(x) ((mptr)(x) & 1)
+#define MP_make(p, m) ((mptr)(p) | (mptr)(m))
+static _Bool is_node(mptr w) { return (w >> 1) >= 1 && (w >> 1) <= NP; }
+static size_t idx_of(mptr w) { return (size_t)(w >> 1) - 1; }
+
+/* ---- memory safety: dereferences ---- */
+static struct node* xv_gderef(guard_t g) {      /* operator-> of a guard_ptr: the guard must hold a node (guarded nodes are never freed: guard contract) */
+  _Bool ok = is_node(g) && !(idx_of(g) == IN && (g_freed || !g_alloc));
+  XV_OBL("hmm.mem.safe", ok); XV_ASSUME(ok);
+  return &pool[idx_of(g)];
+}
+static struct node* xv_nderef(mptr n) {         /* raw node*: only the node this call allocated, while it is still private (or guarded by the caller) */
+  _Bool ok = (n == W(IN)) && g_alloc && !g_freed;
+  XV_OBL("hmm.mem.safe", ok); XV_ASSUME(ok);
+  return &pool[IN];
+}
+static mptr* xv_prev(struct find_info* i) {     /* concurrent_ptr* prev: a bucket head, or the next field of the node guarded by save */
+  _Bool ok = 0;
+  for (unsigned b = 0; b < NB; b++) if (i->prev == &M.buckets[b]) ok = 1;
+  if (is_node(i->save) && MP_mark(i->save) == 0 && i->prev == &pool[idx_of(i->save)].next) ok = 1;
+  XV_OBL("hmm.mem.safe", ok); XV_ASSUME(ok);
+  return i->prev;
+}
+#define GDEREF(g) xv_gderef(g)
+#define NDEREF(n) xv_nderef(n)
+#define XV_PREV(i) xv_prev(&(i))
+
+/* ---- guard_ptr contract stubs ---- */
+#ifdef XV_INT
+void xv_env(void);
+#endif
+mptr* mon_val_cell; mptr mon_val_value; _Bool mon_val_ok; uint64_t mon_val_clock;   /* last acquire_if_equal */
+static _Bool g_acquire_if_equal(guard_t* g, mptr* cell, mptr expected, int mo) {
+  XV_ENV(); xv_clock++;
+  mon_val_cell = cell; mon_val_value = expected; mon_val_clock = xv_clock;
+  if (*cell == expected) { *g = expected; mon_val_ok = 1; return 1; }
+  *g = 0; mon_val_ok = 0; return 0;
+}
+static void g_acquire(guard_t* g, mptr* cell, int mo) { XV_ENV(); xv_clock++; *g = *cell; }
+static void g_reclaim(guard_t* g) {
+  _Bool ok = is_node(*g) && MP_mark(*g) == 0;
+  XV_OBL("hmm.mem.safe", ok); XV_ASSUME(ok);
+  g_retired[idx_of(*g)]++; *g = 0;
+}
+#define G_acquire_if_equal(g, cell, e, mo) g_acquire_if_equal(&(g), &(cell), (e), (mo))
+#define G_acquire(g, cell, mo) g_acquire(&(g), &(cell), (mo))
+#define G_reset(g) ((g) = 0)
+#define G_reclaim(g) g_reclaim(&(g))
+#define G_from_raw(p) ((guard_t)(p))
+
+/* ---- hash, bucket map, order: the real texts (lowered.h), selected by the memoize_hash policy ---- */
+size_t __CPROVER_uninterpreted_hashfn(kkey_t);
+#define HASH_FN(k) __CPROVER_uninterpreted_hashfn(k)
+static hash_t dwoh_get_hash(const struct data_t* self); static _Bool dwoh_greater_or_equal(const struct data_t* self, hash_t h, kkey_t key);
+static hash_t dwh_get_hash(const struct data_t* self); static _Bool dwh_greater_or_equal(const struct data_t* self, hash_t h, kkey_t key);
+static void dwh_ctor_without_hash(struct data_t* self);
+static size_t utils_modulo(size_t a, size_t b);
+#if XV_MEMO
+#define DATA_greater_or_equal(d, h, k) dwh_greater_or_equal(&(d), (h), (k))
+#define DATA_get_hash(d) dwh_get_hash(&(d))
+#else
+#define DATA_greater_or_equal(d, h, k) dwoh_greater_or_equal(&(d), (h), (k))
+#define DATA_get_hash(d) dwoh_get_hash(&(d))
+#endif
+static size_t xv_map_to_bucket(hash_t h, size_t n) {
+  size_t r = utils_modulo(h, n);
+  XV_OBL("hmm.map_to_bucket.range", r < n);
+  return r;
+}
+#define MAP_TO_BUCKET(h, n) xv_map_to_bucket((h), (n))
+
+/* ---- allocation ---- */
+static mptr xv_new_node(_Bool with_hash, hash_t hash, kkey_t key, val_t value) {
+  XV_OBL("hmm.insert.iff_absent", !g_alloc);       /* one node per insertion attempt */
+  g_alloc = 1; g_alloc_count++;
+  pool[IN].data.value.first = key; pool[IN].data.value.second = value; pool[IN].next = 0;
+#if XV_MEMO
+  if (with_hash) pool[IN].data.hash = hash; else dwh_ctor_without_hash(&pool[IN].data);
+#else
+  pool[IN].data.hash = nondet_size();
+#endif
+  return W(IN);
+}
+static void xv_delete(mptr n) {
+  if (n == 0) return;
+  _Bool ok = (n == W(IN)) && g_alloc && !g_freed && !g_published;
+  XV_OBL("hmm.mem.safe", ok); XV_ASSUME(ok);
+  g_freed = 1;
+}
+#define XV_NEW_NODE(hash, key, value) xv_new_node(1, (hash), (key), (value))
+#define XV_NEW_NODE_WITHOUT_HASH(key, value) xv_new_node(0, 0, (key), (value))
+#define XV_DELETE(n) xv_delete(n)
+val_t xv_cap_args; val_t (*xv_cap_value_factory)(void);
+#define XV_CAPTURE(var, fn) (xv_cap_##var = (var), (fn))
+#define XV_DEFAULT_VALUE ((val_t)0)
+
+/* ---- glue for C++ constructs ---- */
+#define FI_INIT(p) ((struct find_info){ (p), 0, 0, 0 })
+#define XV_SWAP(a, b) do { guard_t xv_t = (a); (a) = (b); (b) = xv_t; } while (0)
+#define XV_BACKOFF() ((void)0)
+#define XV_PAIR(it, b) ((struct pair_ib){ (it), (b) })
+#define ACC_make(g) ((struct accessor){ (g) })
+#define XV_INIT_map(self, v) ((self)->map = (v))
+#define XV_INIT_bucket(self, v) ((self)->bucket = (v))
+#define XV_INIT_info(self, v) ((self)->info = (v))
+static _Bool hmm_find(struct hmm* self, hash_t hash, kkey_t key, size_t bucket, struct find_info* info_p, int backoff);
+static struct iterator hmm_end(struct hmm* self);
+static struct pair_ib hmm_emplace_or_get(struct hmm* self, kkey_t key, val_t value);
+static struct pair_ib hmm_do_get_or_emplace_lazy(struct hmm* self, kkey_t key, mptr (*node_factory)(hash_t, kkey_t));
+static struct pair_ib hmm_get_or_emplace_lazy(struct hmm* self, kkey_t key, val_t (*value_factory)(void));
+static void it_ctor1(struct iterator* self, struct hmm* map);
+static void it_ctor2(struct iterator* self, struct hmm* map, size_t bucket);
+static void it_ctor3(struct iterator* self, struct hmm* map, size_t bucket, struct find_info info);
+static void it_move_to_next_bucket(struct iterator* self);
+static struct iterator xv_it_blank(void) { struct iterator it; it.map = 0; it.bucket = nondet_size(); it.info.prev = 0; it.info.next = 0; it.info.cur = 0; it.info.save = 0; return it; }
+static struct iterator IT_make1(struct hmm* m) { struct iterator it = xv_it_blank(); it_ctor1(&it, m); return it; }
+static struct iterator IT_make2(struct hmm* m, size_t b) { struct iterator it = xv_it_blank(); it_ctor2(&it, m, b); return it; }
+static struct iterator IT_make3(struct hmm* m, size_t b, struct find_info i) { struct iterator it = xv_it_blank(); it_ctor3(&it, m, b, i); return it; }
+#define IT_make(...) XV_PICK3(__VA_ARGS__, IT_make3, IT_make2, IT_make1)(__VA_ARGS__)
+#define HMM_FIND(self, h, k, b, i, bo) hmm_find((self), (h), (k), (b), &(i), (bo))
+#define IT_map_find(m, h, k, b, i, bo) hmm_find(&(m), (h), (k), (b), &(i), (bo))
+#define IT_move_to_next_bucket(pos) it_move_to_next_bucket(&(pos))
+#define XV_GOTO_RETRY goto retry
+
+/* ---- monitors ---- */
+unsigned mon_cas_count, mon_cas_ok_count; mptr* mon_cas_cell; mptr mon_cas_expected, mon_cas_desired;
+static void mon_cas(void* addr, uint64_t e, uint64_t d, _Bool ok, int o) {
+  mon_cas_count++; if (ok) mon_cas_ok_count++;
+  mon_cas_cell = (mptr*)addr; mon_cas_expected = e; mon_cas_desired = d;
+  if (ok && MP_get(d) == W(IN)) g_published = 1;
+}
+static void mon_store(void* addr, uint64_t v, int o) { }
+
+#include "lowered.h"
+
+/* =====================================================================================================================
+ * State: any well-formed map.  Bucket b holds the linked nodes pool[lo(b) .. hi(b)) in this order; keys, hashes, values and
+ * delete marks are arbitrary subject to the representation invariant:
+ *   - hash(node) = hash function of the key (a function: equal keys have equal hashes; anything else - collisions,
+ *     any monotonicity - is allowed), and map_to_bucket(hash) = the bucket the node is linked in;
+ *   - the list is ordered by the container's own predicate: no node is greater_or_equal (as the code defines it) than a
+ *     node linked after it  (for a total order: strictly increasing);
+ *   - linked nodes are not retired; nodes IX, IY are marked, unlinked (their next may still point into a list), possibly retired.
+ * ===================================================================================================================== */
+unsigned in_n[NB]; kkey_t in_key[NP]; hash_t in_hash[NP]; val_t in_val[NP]; _Bool in_mark[NP]; mptr in_xnext[2];
+static unsigned lo(unsigned b) { unsigned s = 0; for (unsigned i = 0; i < NB; i++) if (i < b) s += in_n[i]; return s; }
+static unsigned hi(unsigned b) { return lo(b) + in_n[b]; }
+static mptr succ_of(unsigned i, unsigned b) { return (i + 1 < hi(b)) ? W(i + 1) : 0; }
+static mptr pre_next(unsigned i, unsigned b) { return succ_of(i, b) | (mptr)in_mark[i]; }
+static _Bool GE(unsigned i, hash_t h, kkey_t k) { return DATA_greater_or_equal(pool[i].data, h, k); }
+
+static void build(void) {
+  unsigned total = 0;
+  for (unsigned b = 0; b < NB; b++) { in_n[b] = nondet_uint(); XV_ASSUME(in_n[b] <= L); total += in_n[b]; }
+  XV_ASSUME(total <= L);
+  for (unsigned i = 0; i < NP; i++) {
+    in_key[i] = nondet_u32(); in_val[i] = (val_t)nondet_uptr(); in_mark[i] = nondet_bool(); in_hash[i] = HASH_FN(in_key[i]);
+    pool[i].data.value.first = in_key[i]; pool[i].data.value.second = in_val[i];
+#if XV_MEMO
+    pool[i].data.hash = in_hash[i];
+#else
+    pool[i].data.hash = nondet_size();
+#endif
+    pool[i].next = nondet_uptr();
+    g_retired[i] = 0;
+  }
+  for (unsigned b = 0; b < NB; b++) {
+    M.buckets[b] = in_n[b] ? W(lo(b)) : 0;
+    for (unsigned i = 0; i < L; i++) if (i >= lo(b) && i < hi(b)) {
+      pool[i].next = pre_next(i, b);
+      XV_ASSUME(utils_modulo(in_hash[i], NB) == b);
+      for (unsigned j = 0; j < L; j++) if (j > i && j < hi(b)) XV_ASSUME(!GE(i, in_hash[j], in_key[j]));
+    }
+  }
+  /* unlinked, marked nodes */
+  for (unsigned x = 0; x < 2; x++) {
+    in_mark[IX + x] = 1; in_xnext[x] = nondet_uptr();
+    XV_ASSUME(MP_mark(in_xnext[x]) == 1 && (MP_get(in_xnext[x]) == 0 || (is_node(in_xnext[x]) && idx_of(in_xnext[x]) < total)));
+    pool[IX + x].next = in_xnext[x];
+    g_retired[IX + x] = nondet_bool();
+  }
+  g_alloc = 0; g_freed = 0; g_published = 0; g_alloc_count = 0; g_factory_calls = 0;
+  mon_cas_count = 0; mon_cas_ok_count = 0; xv_clock = 0;
+}
+
+/* ---- expected post-state: which linked nodes were unlinked, where a node was inserted, final marks ---- */
+_Bool exp_removed[L]; _Bool exp_mark[L]; _Bool exp_ins; unsigned exp_ins_at, exp_ins_bucket;
+static void exp_init(void) { for (unsigned i = 0; i < L; i++) { exp_removed[i] = 0; exp_mark[i] = in_mark[i]; } exp_ins = 0; exp_ins_at = 0; exp_ins_bucket = 0; }
+/* first unmarked node at index >= from in bucket b that is >= (h, k) in the container's order; hi(b) if none */
+static unsigned spec_pos(unsigned b, unsigned from, hash_t h, kkey_t k) {
+  unsigned q = hi(b);
+  for (unsigned i = L; i-- > 0; ) if (i >= from && i < hi(b) && !in_mark[i] && GE(i, h, k)) q = i;
+  return q;
+}
+static unsigned first_unmarked(unsigned b, unsigned from) {
+  unsigned q = hi(b);
+  for (unsigned i = L; i-- > 0; ) if (i >= from && i < hi(b) && !in_mark[i]) q = i;
+  return q;
+}
+static void exp_remove_marked(unsigned from, unsigned q) { for (unsigned i = 0; i < L; i++) if (i >= from && i < q && in_mark[i]) exp_removed[i] = 1; }
+/* last node in [from, q) that stays; returns L if none */
+static unsigned spec_pred(unsigned from, unsigned q) { unsigned p = L; for (unsigned i = 0; i < L; i++) if (i >= from && i < q && !in_mark[i]) p = i; return p; }
+
+/* the post-state is exactly the expected one: lists, marks, payloads, retire counts */
+static _Bool post_lists_ok(void) {
+  _Bool ok = 1;
+  for (unsigned b = 0; b < NB; b++) {
+    mptr* cell = &M.buckets[b]; mptr cm = 0;
+    for (unsigned i = 0; i < L; i++) if (i >= lo(b) && i < hi(b)) {
+      if (exp_ins && exp_ins_bucket == b && exp_ins_at == i) { ok = ok && (*cell == (W(IN) | cm)); cell = &pool[IN].next; cm = 0; }
+      if (!exp_removed[i]) { ok = ok && (*cell == (W(i) | cm)); cell = &pool[i].next; cm = exp_mark[i]; }
+      else ok = ok && pool[i].next == (succ_of(i, b) | 1);
+    }
+    if (exp_ins && exp_ins_bucket == b && exp_ins_at == hi(b)) { ok = ok && (*cell == (W(IN) | cm)); cell = &pool[IN].next; cm = 0; }
+    ok = ok && (*cell == cm);
+  }
+  return ok;
+}
+static _Bool post_payload_ok(void) {
+  _Bool ok = 1;
+  for (unsigned i = 0; i < L + 2; i++) {
+    ok = ok && pool[i].data.value.first == in_key[i] && pool[i].data.value.second == in_val[i];
+#if XV_MEMO
+    ok = ok && pool[i].data.hash == in_hash[i];
+#endif
+  }
+  ok = ok && pool[IX].next == in_xnext[0] && pool[IY].next == in_xnext[1];
+  return ok;
+}
+unsigned pre_retired_x, pre_retired_y;
+static _Bool post_retired_ok(void) {
+  _Bool ok = 1;
+  for (unsigned i = 0; i < L; i++) ok = ok && g_retired[i] == (exp_removed[i] ? 1u : 0u);
+  ok = ok && g_retired[IX] == pre_retired_x && g_retired[IY] == pre_retired_y && g_retired[IN] == 0;
+  return ok;
+}
+static void snapshot(void) { pre_retired_x = g_retired[IX]; pre_retired_y = g_retired[IY]; }
+
+/* ---- order predicates: loop-free, all hashes and keys -------------------------------------------------------------------- */
+void h_order(void) {
+  struct data_t a, b, c;
+  a.value.first = nondet_u32(); b.value.first = nondet_u32(); c.value.first = nondet_u32();
+  a.value.second = nondet_uptr(); b.value.second = nondet_uptr(); c.value.second = nondet_uptr();
+  hash_t ha = HASH_FN(a.value.first), hb = HASH_FN(b.value.first), hc = HASH_FN(c.value.first);
+  /* data_without_hash: no hash field */
+  a.hash = nondet_size(); b.hash = nondet_size(); c.hash = nondet_size();
+  {
+    _Bool ab = dwoh_greater_or_equal(&a, hb, b.value.first), ba = dwoh_greater_or_equal(&b, ha, a.value.first);
+    _Bool bc = dwoh_greater_or_equal(&b, hc, c.value.first), ac = dwoh_greater_or_equal(&a, hc, c.value.first);
+    XV_OBL("hmm.order.total", ab || ba);
+    XV_OBL("hmm.order.total", (ab && ba) == (a.value.first == b.value.first));
+    XV_OBL("hmm.order.total", !(ab && bc) || ac);
+    XV_OBL("hmm.order.total", dwoh_get_hash(&a) == ha);
+    if (ab && !ba) XV_CANARY("order.nohash.strict");
+  }
+  /* data_with_hash: the constructors store hash(key) */
+  a.hash = ha; b.hash = hb; c.hash = hc;
+  {
+    struct data_t d = a; d.hash = nondet_size(); dwh_ctor_without_hash(&d);
+    XV_OBL("hmm.order.total", d.hash == ha && dwh_get_hash(&a) == ha);
+    _Bool ab = dwh_greater_or_equal(&a, hb, b.value.first), ba = dwh_greater_or_equal(&b, ha, a.value.first);
+    _Bool bc = dwh_greater_or_equal(&b, hc, c.value.first), ac = dwh_greater_or_equal(&a, hc, c.value.first);
+    XV_OBL("hmm.order.total", ab || ba);
+    XV_OBL("hmm.order.total", (ab && ba) == (a.value.first == b.value.first));
+    XV_OBL("hmm.order.total", !(ab && bc) || ac);
+    if (ab && !ba && ha == hb) XV_CANARY("order.hash.collision");
+    if (ab && !ba && ha > hb && a.value.first < b.value.first) XV_CANARY("order.hash.decreasing");
+  }
+}
+
+/* ---- map_to_bucket ------------------------------------------------------------------------------------------------------------ */
+void h_map_to_bucket(void) {
+  hash_t h = nondet_size();
+  size_t r = xv_map_to_bucket(h, num_buckets);
+  XV_OBL("hmm.map_to_bucket.range", r < NB);
+  XV_CANARY("map_to_bucket.reached");
+}
+
+/* ---- internal find from any start an iterator / a retry can hand in ------------------------------------------------------- */
+unsigned in_b, in_start; kkey_t in_k;    /* in_start: 0 = bucket head, 1 = linked node in_s, 2 = unlinked node IY */
+unsigned in_s;
+void h_find(void) {
+  build(); exp_init(); snapshot();
+  in_k = nondet_u32(); hash_t h = HASH_FN(in_k);
+  in_b = utils_modulo(h, NB);
+  unsigned b = in_b;
+  struct find_info info; info.next = nondet_uptr(); info.cur = nondet_uptr();
+  in_start = nondet_uint(); in_s = nondet_uint(); XV_ASSUME(in_start <= 2);
+  unsigned from = lo(b);
+  XV_ASSUME(info.cur == 0 || (is_node(info.cur) && MP_mark(info.cur) == 0));
+  if (in_start == 0) { info.prev = &M.buckets[b]; info.save = 0; }
+  else if (in_start == 1) {
+    XV_ASSUME(in_s >= lo(b) && in_s < hi(b));
+    XV_ASSUME(!GE(in_s, h, in_k));                   /* the start node precedes the key (callers: iterator ++ / erase(iterator), retry of an insert) */
+    info.prev = &pool[in_s].next; info.save = W(in_s);
+    if (!in_mark[in_s]) from = in_s + 1;
+  } else { info.prev = &pool[IY].next; info.save = W(IY); }
+  mptr* start_cell = (from == lo(b)) ? &M.buckets[b] : info.prev; guard_t start_guard = (from == lo(b)) ? 0 : info.save;
+  _Bool live = 0; for (unsigned i = 0; i < L; i++) if (i >= from && i < hi(b) && !in_mark[i] && in_key[i] == in_k) live = 1;
+  unsigned q = spec_pos(b, from, h, in_k);
+  exp_remove_marked(from, q);
+  unsigned pred = spec_pred(from, q);
+
+  _Bool r = hmm_find(&M, h, in_k, b, &info, 0);
+
+  XV_OBL("hmm.find.iff_live", r == live);
+  XV_OBL("hmm.find.position", info.cur == (q < hi(b) ? W(q) : 0));
+  XV_OBL("hmm.find.position", q < hi(b) ? (info.next == pre_next(q, b) && r == (in_key[q] == in_k)) : (info.next == 0 && !r));
+  XV_OBL("hmm.find.position", pred < L ? (info.prev == &pool[pred].next && info.save == W(pred)) : (info.prev == start_cell && info.save == start_guard));
+  XV_OBL("hmm.find.position", *info.prev == info.cur);
+  XV_OBL("hmm.find.frame", post_lists_ok());
+  XV_OBL("hmm.find.frame", post_payload_ok());
+  XV_OBL("hmm.find.frame", post_retired_ok());
+  XV_OBL("hmm.find.frame", !g_alloc && !g_freed);
+  if (r) XV_CANARY("find.found");
+  if (!r && q < hi(b)) XV_CANARY("find.stopped_at_greater");
+  if (!r && q == hi(b)) XV_CANARY("find.end_of_bucket");
+  if (in_start == 1 && in_mark[in_s]) XV_CANARY("find.restart_from_head");
+  if (in_start == 1 && !in_mark[in_s] && pred < L) XV_CANARY("find.from_save");
+  if (in_start == 2) XV_CANARY("find.unlinked_start");
+  if (in_n[b] >= 2 && exp_removed[lo(b)] && exp_removed[lo(b) + 1]) XV_CANARY("find.removed_two");
+  if (q < hi(b) && in_hash[q] == h && in_key[q] != in_k) XV_CANARY("find.colliding_hash");
+}
+
+/* ---- contains / find(key) ----------------------------------------------------------------------------------------------------- */
+unsigned in_which;
+void h_lookup(void) {
+  build(); exp_init(); snapshot();
+  in_k = nondet_u32(); hash_t h = HASH_FN(in_k); unsigned b = utils_modulo(h, NB); in_b = b;
+  _Bool live = 0; for (unsigned i = 0; i < L; i++) if (i >= lo(b) && i < hi(b) && !in_mark[i] && in_key[i] == in_k) live = 1;
+  unsigned q = spec_pos(b, lo(b), h, in_k); exp_remove_marked(lo(b), q); unsigned pred = spec_pred(lo(b), q);
+  in_which = nondet_uint(); XV_ASSUME(in_which <= 1);
+  if (in_which == 0) {
+    _Bool r = hmm_contains(&M, in_k);
+    XV_OBL("hmm.find.iff_live", r == live);
+    if (r) XV_CANARY("contains.true"); else XV_CANARY("contains.false");
+  } else {
+    struct iterator it = hmm_find_key(&M, in_k);
+    XV_OBL("hmm.find.iff_live", (it.info.cur != 0) == live);
+    if (live) {
+      XV_OBL("hmm.find.position", it.info.cur == W(q) && in_key[q] == in_k && !in_mark[q] && it.bucket == b && it.map == &M);
+      XV_OBL("hmm.find.position", pred < L ? (it.info.prev == &pool[pred].next && it.info.save == W(pred)) : (it.info.prev == &M.buckets[b] && it.info.save == 0));
+      XV_CANARY("find_key.found");
+    } else { XV_OBL("hmm.find.position", it.info.cur == 0 && it.info.save == 0); XV_CANARY("find_key.end"); }
+  }
+  XV_OBL("hmm.find.frame", post_lists_ok() && post_payload_ok() && post_retired_ok() && !g_alloc);
+}
+
+/* ---- insertion: emplace / emplace_or_get / get_or_emplace / get_or_emplace_lazy / operator[] ------------------------------- */
+val_t in_v;
+static val_t stub_value_factory(void) { g_factory_calls++; return in_v; }
+void h_insert(void) {
+  build(); exp_init(); snapshot();
+  in_k = nondet_u32(); in_v = (val_t)nondet_uptr(); hash_t h = HASH_FN(in_k); unsigned b = utils_modulo(h, NB); in_b = b;
+  unsigned q = spec_pos(b, lo(b), h, in_k); exp_remove_marked(lo(b), q); unsigned pred = spec_pred(lo(b), q);
+  _Bool present = q < hi(b) && in_key[q] == in_k;
+  if (!present) { exp_ins = 1; exp_ins_bucket = b; exp_ins_at = q; }
+  in_which = nondet_uint(); XV_ASSUME(in_which <= 4);
+  struct pair_ib r; struct accessor acc; _Bool have_it = 1, lazy = 0; val_t v_expected = in_v;
+  r.first = xv_it_blank(); r.second = nondet_bool(); acc.guard = 0;
+  if (in_which == 0) { r.second = hmm_emplace(&M, in_k, in_v); have_it = 0; }
+  else if (in_which == 1) r = hmm_emplace_or_get(&M, in_k, in_v);
+  else if (in_which == 2) { r = hmm_get_or_emplace(&M, in_k, in_v); lazy = 1; }
+  else if (in_which == 3) { r = hmm_get_or_emplace_lazy(&M, in_k, stub_value_factory); lazy = 1; }
+  else { acc = hmm_subscript(&M, in_k); have_it = 0; lazy = 1; v_expected = XV_DEFAULT_VALUE; }
+  if (in_which != 4) XV_OBL("hmm.insert.iff_absent", r.second == !present);
+  mptr cur_expected = present ? W(q) : W(IN);
+  if (have_it) {
+    XV_OBL("hmm.insert.iff_absent", r.first.info.cur == cur_expected && r.first.bucket == b && r.first.map == &M);
+    XV_OBL("hmm.insert.iff_absent", pred < L ? (r.first.info.prev == &pool[pred].next && r.first.info.save == W(pred)) : (r.first.info.prev == &M.buckets[b] && r.first.info.save == 0));
+  }
+  if (in_which == 4) XV_OBL("hmm.insert.iff_absent", acc.guard == cur_expected);
+  if (!present) {
+    XV_OBL("hmm.insert.iff_absent", g_alloc && g_alloc_count == 1 && g_published && !g_freed);
+    XV_OBL("hmm.insert.iff_absent", pool[IN].data.value.first == in_k && pool[IN].data.value.second == v_expected);
+#if XV_MEMO
+    XV_OBL("hmm.insert.iff_absent", pool[IN].data.hash == h);
+#endif
+    if (in_which == 3) XV_OBL("hmm.insert.iff_absent", g_factory_calls == 1);
+    XV_CANARY("insert.inserted");
+    if (q < hi(b)) XV_CANARY("insert.in_front_of_a_node"); else XV_CANARY("insert.at_end");
+    if (pred < L) XV_CANARY("insert.behind_a_node");
+  } else {
+    if (lazy) XV_OBL("hmm.insert.iff_absent", !g_alloc && g_factory_calls == 0);     /* nothing is constructed when the key is present */
+    else XV_OBL("hmm.insert.iff_absent", g_alloc && g_alloc_count == 1 && g_freed && !g_published);   /* the speculative node is destroyed */
+    XV_CANARY("insert.present");
+  }
+  XV_OBL("hmm.insert.iff_absent", post_lists_ok());        /* exact list: sorted position, nothing else moved */
+  XV_OBL("hmm.insert.iff_absent", post_payload_ok() && post_retired_ok());
+  if (in_which == 0) XV_CANARY("insert.emplace"); if (in_which == 1) XV_CANARY("insert.emplace_or_get"); if (in_which == 2) XV_CANARY("insert.get_or_emplace");
+  if (in_which == 3) XV_CANARY("insert.get_or_emplace_lazy"); if (in_which == 4) XV_CANARY("insert.subscript");
+}
+
+/* ---- erase(key) ----------------------------------------------------------------------------------------------------------------- */
+void h_erase_key(void) {
+  build(); exp_init(); snapshot();
+  in_k = nondet_u32(); hash_t h = HASH_FN(in_k); unsigned b = utils_modulo(h, NB); in_b = b;
+  unsigned q = spec_pos(b, lo(b), h, in_k); exp_remove_marked(lo(b), q);
+  _Bool present = q < hi(b) && in_key[q] == in_k;
+  if (present) { exp_removed[q] = 1; exp_mark[q] = 1; }
+  _Bool r = hmm_erase_key(&M, in_k);
+  XV_OBL("hmm.erase.iff_present", r == present);
+  XV_OBL("hmm.erase.iff_present", post_lists_ok());
+  XV_OBL("hmm.erase.iff_present", post_payload_ok() && !g_alloc);
+  XV_OBL("hmm.erase.iff_present", post_retired_ok());      /* the erased node and the marked nodes passed are retired exactly once, nothing else */
+  if (r) XV_CANARY("erase_key.true"); else XV_CANARY("erase_key.false");
+  if (r && q > lo(b) && in_mark[q - 1]) XV_CANARY("erase_key.behind_marked");
+}
+
+/* =====================================================================================================================
+ * Iterator states as other handles can leave them.  The iterator is in bucket b; cur is guarded and is either a linked node
+ * (marked or not) or the unlinked marked node IX, whose place in the order is "in front of linked node in_ip" (the list may
+ * since have received an equal key exactly there); save is null (prev = bucket head), a linked node in front of cur
+ * (marked or not, not necessarily the direct predecessor any more), or the unlinked marked node IY.
+ * ===================================================================================================================== */
+unsigned in_ib, in_icur, in_ic, in_ip, in_isave, in_is;
+unsigned it_from, it_t;      /* where a find from this iterator starts; first index behind cur */
+static void build_iterator(struct iterator* it) {
+  in_ib = nondet_uint(); XV_ASSUME(in_ib < NB); unsigned b = in_ib;
+  in_icur = nondet_uint(); in_ic = nondet_uint(); in_ip = nondet_uint(); in_isave = nondet_uint(); in_is = nondet_uint();
+  XV_ASSUME(in_icur <= 1 && in_isave <= 2);
+  it->map = &M; it->bucket = b; it->info.next = nondet_uptr();
+  unsigned limit;
+  if (in_icur == 0) { XV_ASSUME(in_ic >= lo(b) && in_ic < hi(b)); it->info.cur = W(in_ic); limit = in_ic; it_t = in_ic + 1; }
+  else {
+    XV_ASSUME(in_ip >= lo(b) && in_ip <= hi(b)); it->info.cur = W(IX); limit = in_ip; it_t = in_ip;
+    XV_ASSUME(utils_modulo(in_hash[IX], NB) == b);
+    for (unsigned i = 0; i < L; i++) if (i >= lo(b) && i < hi(b)) {
+      if (i < in_ip) XV_ASSUME(!GE(i, in_hash[IX], in_key[IX]));
+      else XV_ASSUME(!GE(IX, in_hash[i], in_key[i]) || (i == in_ip && in_key[i] == in_key[IX]));
+    }
+  }
+  it_from = lo(b);
+  if (in_isave == 0) { it->info.prev = &M.buckets[b]; it->info.save = 0; }
+  else if (in_isave == 1) {
+    XV_ASSUME(in_is >= lo(b) && in_is < limit); it->info.prev = &pool[in_is].next; it->info.save = W(in_is);
+    if (!in_mark[in_is]) it_from = in_is + 1;
+  } else { it->info.prev = &pool[IY].next; it->info.save = W(IY); }
+}
+/* first linked node of the first non-empty bucket behind b (0 if none), its bucket in *nb */
+static mptr first_of_later_bucket(unsigned b, unsigned* nb) {
+  mptr w = 0; *nb = NB - 1;
+  for (unsigned x = NB; x-- > 0; ) if (x > b && in_n[x] > 0) { w = W(lo(x)); *nb = x; }
+  return w;
+}
+/* the iterator designates a linked node, consistently: used as postcondition of every iterator operation */
+static _Bool it_consistent(const struct iterator* it) {
+  if (it->info.cur == 0) return 1;
+  if (it->bucket >= NB || it->map != &M) return 0;
+  if (*it->info.prev != it->info.cur) return 0;
+  if (it->info.save == 0) return it->info.prev == &M.buckets[it->bucket];
+  return is_node(it->info.save) && it->info.prev == &pool[idx_of(it->info.save)].next;
+}
+/* common postcondition of ++ / erase(iterator) when they had to go through find (cur was marked or prev no longer led to cur) */
+static void expect_slow_path(struct iterator* it, unsigned b, mptr* exp_cur, mptr** exp_prev, guard_t* exp_save, unsigned* exp_bucket, const struct iterator* pre) {
+  unsigned q = first_unmarked(b, it_t);
+  exp_remove_marked(it_from, q);
+  unsigned pred = spec_pred(it_from, q);
+  if (q < hi(b)) {
+    *exp_cur = W(q); *exp_bucket = b;
+    if (pred < L) { *exp_prev = &pool[pred].next; *exp_save = W(pred); }
+    else if (it_from == lo(b)) { *exp_prev = &M.buckets[b]; *exp_save = 0; }
+    else { *exp_prev = pre->info.prev; *exp_save = pre->info.save; }
+  } else { *exp_cur = first_of_later_bucket(b, exp_bucket); *exp_save = 0; *exp_prev = 0; }
+}
+/* no unmarked node between the old position and the new one is left out; the new position is behind the old one */
+static _Bool no_skip(unsigned b, const struct iterator* post) {
+  _Bool ok = 1; unsigned stop = hi(b);
+  if (post->info.cur != 0) {
+    if (!is_node(post->info.cur) || MP_mark(post->info.cur)) return 0;
+    unsigned ni = idx_of(post->info.cur);
+    if (post->bucket == b) { if (ni == IN || ni >= hi(b) || ni < it_t) return 0; stop = ni; }
+    else { if (post->bucket < b || post->bucket >= NB || in_n[post->bucket] == 0 || ni != lo(post->bucket)) return 0; }
+  }
+  for (unsigned i = 0; i < L; i++) if (i >= it_t && i < stop && !in_mark[i]) ok = 0;
+  for (unsigned x = 0; x < NB; x++) if (x > b && (post->info.cur == 0 || x < post->bucket) && in_n[x] != 0) ok = 0;
+  return ok;
+}
+
+void h_inc(void) {
+  build(); exp_init(); snapshot();
+  struct iterator it; build_iterator(&it); struct iterator pre = it; unsigned b = in_ib;
+  mptr exp_cur; mptr* exp_prev = 0; guard_t exp_save; unsigned exp_bucket = b;
+  _Bool fast = (in_icur == 0 && !in_mark[in_ic]);
+  if (fast) {
+    if (in_ic + 1 < hi(b)) { exp_cur = W(in_ic + 1); exp_prev = &pool[in_ic].next; exp_save = W(in_ic); }
+    else { exp_cur = first_of_later_bucket(b, &exp_bucket); exp_save = 0; }
+  } else expect_slow_path(&it, b, &exp_cur, &exp_prev, &exp_save, &exp_bucket, &pre);
+
+  it_inc(&it);
+
+  XV_OBL("hmm.iter.inc.no_skip", no_skip(b, &it));
+  XV_OBL("hmm.iter.inc.next_live", it.info.cur == exp_cur);
+  XV_OBL("hmm.iter.inc.next_live", it.info.cur != pre.info.cur);
+  if (exp_cur != 0) XV_OBL("hmm.iter.inc.next_live", it.bucket == exp_bucket && it.info.save == exp_save && it.info.prev == (exp_prev ? exp_prev : &M.buckets[exp_bucket]));
+  XV_OBL("hmm.iter.inc.next_live", it_consistent(&it) && it.map == &M);
+  XV_OBL("hmm.iter.inc.frame", post_lists_ok());
+  XV_OBL("hmm.iter.inc.frame", post_payload_ok() && post_retired_ok() && !g_alloc);
+  if (fast && exp_cur != 0 && exp_bucket == b) XV_CANARY("inc.fast");
+  if (fast && exp_cur != 0 && exp_bucket == b && in_mark[in_ic + 1]) XV_CANARY("inc.fast_to_marked");
+  if (!fast && in_icur == 0 && exp_cur != 0 && exp_bucket == b) XV_CANARY("inc.cur_marked_linked");
+  if (in_icur == 1 && exp_cur != 0 && exp_bucket == b) XV_CANARY("inc.cur_unlinked");
+  if (in_icur == 1 && exp_cur != 0 && exp_bucket == b && in_key[in_ip] == in_key[IX]) XV_CANARY("inc.key_reinserted");
+  if (!fast && in_isave == 1 && it_from > lo(b) && exp_cur != 0 && exp_bucket == b) XV_CANARY("inc.slow_from_save");
+  if (in_isave == 2) XV_CANARY("inc.save_unlinked");
+  if (in_isave == 1 && in_icur == 0 && in_is + 1 < in_ic) XV_CANARY("inc.successor_of_save_changed");
+  if (exp_cur == 0) XV_CANARY("inc.to_end");
+#if NB > 1
+  if (exp_cur != 0 && exp_bucket != b) XV_CANARY("inc.to_next_bucket");
+#endif
+}
+
+/* ---- erase(iterator) ---------------------------------------------------------------------------------------------------------- */
+void h_erase_it(void) {
+  build(); exp_init(); snapshot();
+  struct iterator it; build_iterator(&it); struct iterator pre = it; unsigned b = in_ib;
+  mptr exp_cur; mptr* exp_prev = 0; guard_t exp_save; unsigned exp_bucket = b;
+  _Bool direct = in_icur == 0 && *it.info.prev == W(in_ic);
+  if (in_icur == 0) { exp_mark[in_ic] = 1; exp_removed[in_ic] = 1; }
+  if (direct) {
+    if (in_ic + 1 < hi(b)) { exp_cur = W(in_ic + 1); exp_prev = pre.info.prev; exp_save = pre.info.save; }
+    else { exp_cur = first_of_later_bucket(b, &exp_bucket); exp_save = 0; }
+  } else {
+    _Bool m = in_mark[in_ic]; if (in_icur == 0) in_mark[in_ic] = 1;      /* cur is marked by the time find runs */
+    expect_slow_path(&it, b, &exp_cur, &exp_prev, &exp_save, &exp_bucket, &pre);
+    if (in_icur == 0) in_mark[in_ic] = m;
+  }
+
+  struct iterator r = hmm_erase_it(&M, it);
+
+  XV_OBL("hmm.iter.erase.exact", post_lists_ok());           /* cur marked and unlinked; besides that only marked nodes on the way were unlinked */
+  XV_OBL("hmm.iter.erase.exact", post_retired_ok());
+  XV_OBL("hmm.iter.erase.exact", post_payload_ok() && !g_alloc);
+  XV_OBL("hmm.iter.erase.exact", MP_mark(pool[idx_of(pre.info.cur)].next) == 1);
+  XV_OBL("hmm.iter.erase.exact", r.info.cur == exp_cur && r.info.cur != pre.info.cur);
+  XV_OBL("hmm.iter.erase.exact", no_skip(b, &r));
+  if (exp_cur != 0) XV_OBL("hmm.iter.erase.exact", r.bucket == exp_bucket && r.info.save == exp_save && r.info.prev == (exp_prev ? exp_prev : &M.buckets[exp_bucket]));
+  XV_OBL("hmm.iter.erase.exact", it_consistent(&r) && r.map == &M);
+  if (direct && !in_mark[in_ic]) XV_CANARY("erase_it.direct");
+  if (direct && in_mark[in_ic]) XV_CANARY("erase_it.already_marked");
+  if (!direct && in_icur == 0) XV_CANARY("erase_it.prev_changed");
+  if (in_icur == 1) XV_CANARY("erase_it.cur_unlinked");
+  if (direct && exp_cur != 0 && exp_bucket == b && in_mark[in_ic + 1]) XV_CANARY("erase_it.returns_marked_successor");
+  if (exp_cur == 0) XV_CANARY("erase_it.to_end");
+#if NB > 1
+  if (exp_cur != 0 && exp_bucket != b) XV_CANARY("erase_it.to_next_bucket");
+#endif
+}
+
+/* ---- begin / end ---------------------------------------------------------------------------------------------------------------- */
+void h_begin(void) {
+  build(); exp_init(); snapshot();
+  in_which = nondet_uint(); XV_ASSUME(in_which <= 1);
+  if (in_which == 0) {
+    struct iterator it = hmm_begin(&M);
+    unsigned eb = 0; mptr e = in_n[0] ? W(0) : first_of_later_bucket(0, &eb);
+    XV_OBL("hmm.iter.begin.first", it.info.cur == e && it.map == &M && it.info.save == 0);
+    if (e != 0) { XV_OBL("hmm.iter.begin.first", it.bucket == eb && it.info.prev == &M.buckets[eb] && it_consistent(&it)); XV_CANARY("begin.nonempty"); }
+    else XV_CANARY("begin.empty");
+#if NB > 1
+    if (e != 0 && eb != 0) XV_CANARY("begin.later_bucket");
+#endif
+  } else {
+    struct iterator it = hmm_end(&M);
+    XV_OBL("hmm.iter.begin.first", it.info.cur == 0 && it.map == &M);
+    XV_CANARY("begin.end");
+  }
+  XV_OBL("hmm.iter.begin.first", post_lists_ok() && post_payload_ok() && post_retired_ok() && !g_alloc);
+}
